@@ -154,6 +154,24 @@ def wl_freqslice(ctx, idx, rng):
     desc.update(depth=depth, kinds=kinds, chan_range=[lo, hi])
     ctx.describe_case(desc)
     ctx.sample(desc)
+    if rng.random() < 0.25:
+        # selections outside what the band model can describe: refused (any exception), or - judged by the monitor - labelled right
+        nc = cur.shape[1]
+        bad = gen.pick(rng, [slice(None, None, 2), slice(None, None, -1), slice(nc, nc), slice(1, 1), slice(nc - 1, 0, -1),
+                             int(rng.integers(0, nc)), [0], np.arange(nc) % 2 == 0, Ellipsis])
+        ctx.count("unsupported_freq_selection")
+        try:
+            r_ = cur[:, bad]
+        except Exception:
+            ctx.count("unsupported_freq_selection_refused")
+        else:
+            if isinstance(r_, pb.RadioSignal) and not isinstance(bad, slice):
+                # integer / mask / list selections change the meaning of axis 1: a RadioSignal result is mislabelled by construction
+                with probes.quiet():
+                    ok_ = bad is Ellipsis and r_.shape == cur.shape
+                if not ok_:
+                    ctx.violation("getitem_freq", f"z[:, {bad!r}] returned a {type(r_).__name__} of shape {r_.shape} instead of refusing a "
+                                                  "non-slice frequency index", None, {"what": "non_slice_accepted"})
     # end-to-end: leaf labels == root labels[lo:hi]  (skipped for the stepped-baseband known mechanism, judged per event)
     if tol <= root_m["bw"] / 1000 and not (stepped and clsname in gen.BASEBAND):
         ctx.count("oracle[nested_labels]")
